@@ -414,7 +414,7 @@ func checkTailCallResultTypes(c *core.Ctx) {
 					}
 					res := 0
 					for _, a := range call.Args {
-						if strings.HasSuffix(core.ExprStr(a), ".Results") {
+						if strings.HasSuffix(core.ExprStr(a), ".Results") || exprMentions(info, fd.Body, a, "Results") {
 							res++
 						}
 					}
